@@ -26,6 +26,7 @@ func init() {
 			c.run("C14-S2", "shared with C13-R6: the relay's workers run concurrently (the handshake can finish and the relay return to standby)", c13Launch)
 			c.run("C14-R9", "DATAFLOW: at every return of the relay handshake the flush flag is false whenever an error is set (helpers summarised)", c14Cells)
 			c.run("C14-S3", "shared with C13-R7: sides of the pumps, of the handshake's line readers and of the error report", c13Sides)
+			c.run("C14-S4", "shared with C13-R5: each relay pump goes on with the status the parking function re-read under the lock (so the end-of-transfer scan is not skipped on a stale 'handshaking')", c13R5)
 			c.run("C14-R6", "PAIR+GUARD-DOM (shared with C13-R1/R2): nothing can be parked after the flush, so no stale chunk is left for the next transfer's handshake", func(c *Ctx) { c13R1(c); c13R2(c) })
 		})
 }
